@@ -1,7 +1,7 @@
 """C20 - creating a worker returns a usable worker or raises, it never hangs."""
 import ast
 
-from ..astutil import (AnalysisError, dotted, calls_in, last_attr, receiver, norm, is_name, walk_local, is_self_attr,
+from ..astutil import (edge_facts, AnalysisError, dotted, calls_in, last_attr, receiver, norm, is_name, walk_local, is_self_attr,
                        loc, short, parent_map)
 from ..cfg import is_flow, path_str
 from ..lifecycle import worker_classes
@@ -15,7 +15,7 @@ EXPLANATION = (
     'multiprocessing.connection.wait([... pipe end ..., <process>.sentinel]) whose result is tested for the pipe end: a '
     'child that dies while starting cannot block its creator; the accept() of the control connection is multiplexed with the '
     'client data socket the same way. R3: the failure path of the remote constructor joins the frontend thread, which closes '
-    'its sockets, and re-raises. R4: registration as an active child is dominated by the completed _start().')
+    'its sockets, and re-raises. R4: registration as an active child is dominated by the completed _start(). R5: every `mp.connection.wait` has a reason why multiprocessing.connection is imported at that point (see C11.R5) - a start-up wait that fails with AttributeError leaves the client of a stand-alone server without a worker.')
 TECHNIQUE = 'must-pass-through on the CFG with exception edges, multiplexed-wait recogniser with dominators'
 
 
@@ -38,6 +38,8 @@ def untimed_waits(func):
 
 
 def run(ctx):
+    from ..submodule import check_submodule_use
+    check_submodule_use(ctx, 'R5')
     from ..frame import check_frame_attrs
     check_frame_attrs(ctx, 'C20', 'R4')
     P = ctx.prog
@@ -169,14 +171,10 @@ def guarded_by_wait(g, dom, f, recv_nodes, pipe, other_suffix):
         doms = set()
         for n in g.nodes:
             if n.kind == 'test' and isinstance(n.stmt, ast.If) and n.part in (None, 'post'):
-                t = n.stmt.test
-                if isinstance(t, ast.Compare) and len(t.ops) == 1 and norm(t.left) == pipe and is_name(t.comparators[0], var):
-                    want = 'true' if isinstance(t.ops[0], ast.In) else ('false' if isinstance(t.ops[0], ast.NotIn) else None)
-                    if want:
-                        # nodes of `n.stmt` (test) may be split eval/post; use the edges of the last part
-                        for e in n.succ:
-                            if e.kind == want:
-                                doms.add(e.dst.id)
+                # polarity-free: the edge that establishes `pipe in <ready>` (also as a conjunct, also through `not`)
+                for e in n.succ:
+                    if e.kind in ('true', 'false') and (f'{pipe} in {var}', True) in edge_facts(e):
+                        doms.add(e.dst.id)
             # an assert <other> in ready on the else side is a belief, not a guard
         if doms and recv_nodes and all(dom.get(r.id, set()) & doms for r in recv_nodes):
             return True, ''
